@@ -22,7 +22,8 @@ MANIFEST = {
             "json_deserialization.py / _generic.py on every run (guards lossless on the spec domain, reader reads what the writer "
             "writes, required ⊆ always written, strip flags agree, modelType dispatch one-to-one, enum tables injective); lifted to "
             "stores. The generic interpreter is tied to the real adapters by a differential run (writer output and strict reader "
-            "result vs. model on generated objects of every class).",
+            "result vs. model on generated objects of every class)."
+            " Also regenerated and proved: how the writer names an object's class (modelType = first KEY_TYPES_CLASSES class of the MRO) and sorts a store into the top-level lists (isinstance chain) - under both, instances of application-defined subclasses at any depth of derivation are written like instances of the class they specialise (c03_class_dispatch, c03_subclass_instances_written_alike).",
     "note": "leaf lexical forms (xsd_repr/from_xsd, base64) are C06's and enter as opaque tokens with a truthiness bit; json module "
             "(escaping, streaming) trusted; translator + spec-side metamodel table (py/vf/meta.py) trusted, validated by the tie; "
             "AASd-005 assumed for the nested revision-under-version guard",
@@ -51,12 +52,24 @@ def write_if_changed(path: str, text: str):
         f.write(text)
 
 
+GEN_DISPATCH = os.path.join(C.LEAN_DIR, "Basyx", "Gen", "Dispatch.lean")
+
+
+def translate_dispatch(ctx: C.Ctx) -> List[str]:
+    """how the writers decide which class an object is (modelType naming, sorting into the top-level lists)"""
+    from translate import dispatch_tables as D
+    data = D.build(C.REPO)
+    write_if_changed(GEN_DISPATCH, D.emit_lean(data))
+    return [f"unrecognised source construct: {u}" for u in data["unrecognised"]]
+
+
 def translate(ctx: C.Ctx) -> List[str]:
     from translate import json_tables as J
     data = J.build(C.REPO)
     write_if_changed(GEN_LEAN, J.emit_lean(data))
     write_if_changed(GEN_JSON, json.dumps(data, indent=1))
-    return [f"unrecognised source construct: {u}" for u in data["unrecognised"]] + [f"table problem: {p}" for p in data["problems"]]
+    return [f"unrecognised source construct: {u}" for u in data["unrecognised"]] + [f"table problem: {p}" for p in data["problems"]] \
+        + translate_dispatch(ctx)
 
 
 # ----------------------------------------------------------------------------------------------- generation
